@@ -24,7 +24,7 @@ Directives (one per line, all start with `//@`):
   //@ensures                             followed by `//@   [<obligation name>] <expr>,` lines
   //@loop <n>                            contract for loop ordinal n (0-based, source order)
   //@  invariant / decreases             followed by clause lines
-  //@at /<regex>/[#n] before|after       splice (n-th match when the anchor occurs several times)
+  //@at /<regex>/[#n|#*] before|after    splice (n-th match when the anchor occurs several times; #*: at every match, at least one)
   //@at (old form)                       splice the following `//@   <text>` lines (proof blocks)
   //@end
 
@@ -55,6 +55,10 @@ Rewrite rules (closed list, every application logged with source line):
       body (impl J in G) is extracted instead -- Rust's own method resolution
   N11 (opt-in) `E.and_then(|p| B)` on an Option -> `match` (definition)
   N12 (opt-in) `(A..B).rev().find_map(|p| BODY)` -> a `while` loop going from B-1 down to A that stops at the first Some
+  N13 (opt-in) `M.remove_if_mut(K, |_, p| { BODY });` (DashMap) -> `match M.vx_take(K) { Some(mut p) => { let __rm = { BODY }; if !__rm
+      { M.vx_put(K, p); } } None => {} }` (definition of DashMap::remove_if_mut: under the shard lock the closure gets the
+      value mutably and its result decides removal; take/put-back is that single critical section written out; `p` is then an
+      owned value instead of `&mut`, so a body that dereferences `*p` no longer type-checks -> UNDECIDED)
   A   arm focus (see //@arms)
   P   prefix focus (//@cut before=/re/): the function's statements from the anchor (a top-level
       statement) to the end are replaced by `return self.vx_rest()`, a stub with no contract
@@ -1141,6 +1145,54 @@ def desugar_rev_find_map(text, log, relfile, line):
         k += 1
     raise VxError("N12: did not reach a fixpoint")
 
+def desugar_remove_if_mut(text, log, relfile, line):
+    """Rule N13 (opt-in, pre-pass): `M.remove_if_mut(K, |_, p| { BODY });` -> take / run BODY on the owned value / put back unless BODY says remove"""
+    k = 300
+    for _round in range(10):
+        toks = code_toks(tokenize(text))
+        n = len(toks)
+        cand = None
+        for i, t in enumerate(toks):
+            if t.kind == "ident" and t.text == "remove_if_mut" and i > 0 and toks[i - 1].text == "." and i + 1 < n and toks[i + 1].text == "(":
+                c = match_close(toks, i + 1)
+                # first argument up to the top-level comma
+                q, d = i + 2, 0
+                while q < c:
+                    if toks[q].text in ("(", "[", "{"):
+                        d += 1
+                    elif toks[q].text in (")", "]", "}"):
+                        d -= 1
+                    elif toks[q].text == "," and d == 0:
+                        break
+                    q += 1
+                if q >= c or toks[q + 1].text != "|":
+                    raise VxError("N13: remove_if_mut's second argument is not a closure")
+                key = text[toks[i + 2].start:toks[q].start].strip()
+                p2 = q + 2
+                while toks[p2].text != "|":
+                    p2 += 1
+                params = [x.strip() for x in text[toks[q + 1].end:toks[p2].start].split(",")]
+                if len(params) != 2 or params[0] != "_" or not re.fullmatch(r"[a-z_][A-Za-z0-9_]*", params[1]) or params[1] == "_":
+                    raise VxError("N13: unsupported closure parameters %r" % (params,))
+                be = c - 1
+                if toks[be].text == ",":
+                    be -= 1
+                body = text[toks[p2 + 1].start:toks[be].end]
+                if c + 1 >= n or toks[c + 1].text != ";":
+                    raise VxError("N13: remove_if_mut whose result is used")
+                rs = _recv_start(toks, i - 1)
+                cand = (toks[rs].start, toks[c + 1].end, text[toks[rs].start:toks[i - 1].start].strip(), key, params[1], body)
+                break
+        if cand is None:
+            return text
+        s0, e0, recv, key, pv, body = cand
+        repl = "match %s.vx_take(%s) {\nSome(mut %s) => {\nlet __rm%d = %s;\nif !__rm%d { %s.vx_put(%s, %s); }\n}\nNone => {}\n}" % (
+            recv, key, pv, k, body, k, recv, key, pv)
+        log.append(dict(rule="N13", file=relfile, line=line, before=re.sub(r"\s+", " ", text[s0:e0])[:160], after=re.sub(r"\s+", " ", repl)[:160]))
+        text = text[:s0] + repl + text[e0:]
+        k += 1
+    raise VxError("N13: did not reach a fixpoint")
+
 
 def rule_N7(src, lo, hi, enabled):
     """E.is_some_and(|p| B) -> (match E { Some(p) => B, None => false })
@@ -1458,7 +1510,7 @@ def loop_headers(body):
 # --------------------------------------------------------------------------------------
 # vspec processing
 # --------------------------------------------------------------------------------------
-ALL_RULES = ["D1", "D2", "D3", "D5", "D6", "R1", "N1", "N2", "N3", "N4", "N5", "N6", "N7", "N8", "N9", "N10", "N11", "N12"]
+ALL_RULES = ["D1", "D2", "D3", "D5", "D6", "R1", "N1", "N2", "N3", "N4", "N5", "N6", "N7", "N8", "N9", "N10", "N11", "N12", "N13"]
 KV_RE = re.compile(r'(\w+)=("([^"]*)"|\S+)')
 
 
@@ -1617,7 +1669,7 @@ class Gen:
             rel = kv["default_file"]
             src = self.src(rel)
             loc = find_fn(src, name, kv.get("default_impl"), 0)
-        enabled = set(ALL_RULES) - {"N8", "N10", "N11", "N12"}   # N8 (Option::map) and N10 (collect chains) are opt-in
+        enabled = set(ALL_RULES) - {"N8", "N10", "N11", "N12", "N13"}   # N8 (Option::map) and N10 (collect chains) are opt-in
         maps, sigmaps, arms, cut = [], [], None, None
         from_after = None
         requires, ensures = [], []
@@ -1675,10 +1727,10 @@ class Gen:
             elif bs == "loop_ensures" and cur_loop is not None:
                 mode = "lens"
             elif bs.startswith("at "):
-                m = re.match(r"at /(.*)/(?:#(\d+))? (before|after)\s*$", bs)
+                m = re.match(r"at /(.*)/(?:#(\d+|\*))? (before|after)\s*$", bs)
                 if not m:
                     raise VxError("%s:%d: bad at-directive" % (self.vspec_path, vl))
-                cur_at = (m.group(1), m.group(3), [], int(m.group(2)) if m.group(2) else None)
+                cur_at = (m.group(1), m.group(3), [], (0 if m.group(2) == "*" else int(m.group(2))) if m.group(2) else None)
                 ats.append(cur_at)
                 mode = "at"
             elif bs == "":
@@ -1717,6 +1769,10 @@ class Gen:
             new_body = apply_edits(src, lo, hi, a_edits)
             self.log.append(dict(rule="A", file=rel, line=fn_line, fn=name, before="%d match arms dropped: %s" % (len(dropped_arms), "; ".join(dropped_arms))[:300],
                                  after="{ return self.vx_other_arm(); }"))
+            src = src[:lo] + new_body + src[hi:]
+            hi = lo + len(new_body)
+        if "N13" in enabled and ".remove_if_mut(" in src[lo:hi]:
+            new_body = desugar_remove_if_mut(src[lo:hi], self.log, rel, fn_line)
             src = src[:lo] + new_body + src[hi:]
             hi = lo + len(new_body)
         if "N6" in enabled and re.search(r"\.iter\(\)\s*\.(any|filter|position)\(", src[lo:hi]):
@@ -1878,18 +1934,20 @@ class Gen:
                 raise VxError("anchor lost: at /%s/ matched %d times in %s::%s" % (rx, len(ms), rel, name))
             if occ is not None and len(ms) < occ:
                 raise VxError("anchor lost: at /%s/#%d but only %d matches in %s::%s" % (rx, occ, len(ms), rel, name))
-            m = ms[0] if occ is None else ms[occ - 1]
-            if where == "before":
-                # start of the line
-                off = body.rfind("\n", 0, m.start()) + 1
-            else:
-                off = body.find("\n", m.end())
-                off = len(body) if off < 0 else off + 1
-            names = []
-            for t in tl:
-                mm = re.search(r"//@\[([^\]]+)\]\s*$", t)
-                names.append(mm.group(1) if mm else None)
-            inserts.append((off, "\n".join(tl) + "\n", names))
+            if occ == 0 and not ms:
+                raise VxError("anchor lost: at /%s/#* matches nothing in %s::%s" % (rx, rel, name))
+            for m in (ms if occ == 0 else [ms[0] if occ is None else ms[occ - 1]]):
+                if where == "before":
+                    # start of the line
+                    off = body.rfind("\n", 0, m.start()) + 1
+                else:
+                    off = body.find("\n", m.end())
+                    off = len(body) if off < 0 else off + 1
+                names = []
+                for t in tl:
+                    mm = re.search(r"//@\[([^\]]+)\]\s*$", t)
+                    names.append(mm.group(1) if mm else None)
+                inserts.append((off, "\n".join(tl) + "\n", names))
         # assemble with origin tracking
         src_origin = dict(kind="src", file=rel, line=fn_line, fn=newname or name)
         self.functions.append(dict(kind="fn", name=name, as_name=newname or name, file=rel, line=fn_line,
